@@ -165,10 +165,32 @@ func (e *env) fill(rt *root, b *board.Board) {
 	rt.key = b.FEN()
 	rt.legal = implutil.Legal(b)
 	rt.fifty = int(b.FiftyCnt)
-	rt.three = int(b.Threefold())
+	// the number of occurrences of the root position in its history, counted on the printed positions
+	// (placement, side to move, rights, recorded en-passant target) - NOT by the Threefold() under test
+	rt.three = occurrences(rt.fen, rt.moves)
 	rt.check = b.InCheck(b.STM)
 	rt.drawn = rt.fifty >= 100 || rt.three >= 3
 	rt.final = len(rt.legal) == 0 || rt.drawn
+}
+
+func occurrences(fen string, ms []move.Move) int {
+	b, err := board.FromFEN(fen)
+	if err != nil {
+		return 1
+	}
+	key := func() string { return strings.Join(strings.Fields(b.FEN())[:4], " ") }
+	keys := []string{key()}
+	for _, m := range ms {
+		b.MakeMove(m)
+		keys = append(keys, key())
+	}
+	n := 0
+	for _, k := range keys {
+		if k == keys[len(keys)-1] {
+			n++
+		}
+	}
+	return min(n, 3)
 }
 
 // extend returns the root reached from rt by playing ms.
@@ -853,6 +875,10 @@ func runGo(s *search.Search, g goStep) (canon string, nodes int, infos []infoLin
 		direct = fmt.Sprintf("C06: returned move %s is not legal", mv)
 	case mv == 0 && !g.rt.final:
 		direct = "C06: null move on a non-final root"
+	case g.rt.drawn && !aborted && g.ponder < 0 && g.nodes < 0 && g.stop == -1 && (mv != 0 || score != 0) && len(g.rt.legal) > 0:
+		// a search that ran to completion on a root drawn by the clock or by the third occurrence (counted on the
+		// printed positions of the history, not by Threefold()) returns the null move with score 0
+		direct = fmt.Sprintf("C06: completed search of a drawn root (halfmove clock %d, occurrence %d) returned %s with score %s", g.rt.fifty, g.rt.three, mv, score)
 	case g.nodes >= 0 && cnt.Nodes > g.nodes:
 		direct = fmt.Sprintf("C08: %d nodes counted with a budget of %d", cnt.Nodes, g.nodes)
 	}
